@@ -553,4 +553,32 @@ Context * Context::createChildRuntime(Context& root, uint8_t recursion) const
   return runtime;
 }
 
+/**
+ * Restore the variables of a runtime context made from this to their initial
+ * state: every symbol is as declared, with a new empty value.
+ * @param runtime     the runtime context to be reused
+ */
+void Context::resetChildRuntime(Context& runtime) const
+{
+  size_t i = 0;
+  for (const MemorySlot& e : _storage_pool)
+  {
+    if (i < runtime._storage_pool.size())
+    {
+      MemorySlot& slot = runtime._storage_pool[i];
+      *(slot.symbol) = *(e.symbol);
+      slot.value = Value(*(e.symbol));
+    }
+    else
+      runtime._storage_pool.push_back(MemorySlot(*(e.symbol)));
+    ++i;
+  }
+  /* symbols registered since, if any */
+  for (; i < runtime._storage_pool.size(); ++i)
+  {
+    MemorySlot& slot = runtime._storage_pool[i];
+    slot.value = Value(*(slot.symbol));
+  }
+}
+
 }
